@@ -6,6 +6,8 @@ import "bytes"
 
 func init() {
 	verifRegister("C12_leaf", verifH_C12_leaf)
+	verifRegister("C12_internal", verifH_C12_internal)
+	verifRegister("C12_disk", verifH_C12_disk)
 }
 
 // verifEqBytes asserts a == b byte-wise without short-circuit branching.
@@ -21,11 +23,13 @@ func verifEqBytes(a, b []byte, id string) {
 	verifAssert(ok, id)
 }
 
-// H12-leaf: an arbitrary leaf node the engine can produce (identity offsets,
-// valueSize == len(valueBytes)) encodes to one page and decodes to the same node.
-func verifH_C12_leaf() {
-	n := verifParam("cells", 2)
-	vlen := verifParam("vlen", 2)
+var verifValLens = []int{0, 1, 2, 399, 400}
+
+// verifMakeLeaf builds an arbitrary leaf node the engine can produce: n live
+// cells with identity offsets, valueSize == len(valueBytes), optionally `dead`
+// cells beyond the offsets array (what a split leaves behind). Value lengths:
+// all cells have length base, except cell `odd` (if >= 0) which has length oddLen.
+func verifMakeLeaf(n, base, odd, oddLen, dead int) *btreeNode {
 	node := &btreeNode{isLeaf: true}
 	node.fileOffset = verifU64("fileOffset")
 	node.lastLSN = verifU64("lsn")
@@ -33,17 +37,21 @@ func verifH_C12_leaf() {
 	node.hasRSib = verifBool("hasRSib")
 	node.lSibFileOffset = verifU64("lSib")
 	node.rSibFileOffset = verifU64("rSib")
-	for i := 0; i < n; i++ {
-		node.appendLeafCell(verifU32("key"), verifBytes("val", vlen))
+	node.dirty = verifBool("dirty")
+	for i := 0; i < n+dead; i++ {
+		l := base
+		if i == odd {
+			l = oddLen
+		}
+		node.appendLeafCell(verifU32("key"), verifBytes("val", l))
 		node.leafCells[i].deleted = verifBool("deleted")
 	}
-	buf, err := node.encode()
-	verifAssert(err == nil, "encode-ok")
-	verifAssert(buf.Len() == pageSize, "page-size")
+	node.offsets = node.offsets[:n]
+	return node
+}
 
-	dec := &btreeNode{isLeaf: true}
-	err = dec.decode(bytes.NewBuffer(buf.Bytes()))
-	verifAssert(err == nil, "decode-ok")
+func verifSameLeaf(dec, node *btreeNode, n int) {
+	verifAssert(dec.isLeaf, "isLeaf")
 	verifAssert(dec.fileOffset == node.fileOffset, "fileOffset")
 	verifAssert(dec.lastLSN == node.lastLSN, "lastLSN")
 	verifAssert(dec.hasLSib == node.hasLSib, "hasLSib")
@@ -51,14 +59,134 @@ func verifH_C12_leaf() {
 	verifAssert(dec.lSibFileOffset == node.lSibFileOffset, "lSib")
 	verifAssert(dec.rSibFileOffset == node.rSibFileOffset, "rSib")
 	verifAssert(len(dec.offsets) == n, "cell-count")
-	verifAssert(len(dec.leafCells) == n, "cell-count2")
-	for i := 0; i < n && i < len(dec.offsets) && i < len(dec.leafCells); i++ {
-		verifAssert(dec.offsets[i] == node.offsets[i], "offsets")
+	for i := 0; i < n && i < len(dec.offsets); i++ {
+		verifAssert(int(dec.offsets[i]) < len(dec.leafCells), "offset-in-range")
+		if int(dec.offsets[i]) >= len(dec.leafCells) {
+			continue
+		}
 		a, b := dec.leafCells[dec.offsets[i]], node.leafCells[node.offsets[i]]
+		verifAssert(a != nil, "cell-present")
+		if a == nil {
+			continue
+		}
 		verifAssert(a.key == b.key, "key")
 		verifAssert(a.deleted == b.deleted, "deleted")
 		verifAssert(a.valueSize == b.valueSize, "valueSize")
 		verifEqBytes(a.valueBytes, b.valueBytes, "valueBytes")
 	}
+}
+
+// H12-leaf: encode yields exactly one page and decode gives back the same node.
+func verifH_C12_leaf() {
+	n := verifParam("cells", 2)
+	base := verifValLens[verifChoice("baseLen", len(verifValLens))]
+	odd, oddLen := -1, 0
+	if n > 0 && verifChoice("hasOdd", 2) == 1 {
+		odd = verifChoice("oddPos", n)
+		oddLen = verifValLens[verifChoice("oddLen", len(verifValLens))]
+		verifAssume(oddLen != base)
+	}
+	dead := verifParam("dead", 0)
+	node := verifMakeLeaf(n, base, odd, oddLen, dead)
+
+	buf, err := node.encode()
+	verifAssert(err == nil, "encode-ok")
+	verifAssert(buf.Len() == pageSize, "page-size")
+
+	dec := &btreeNode{isLeaf: true}
+	err = dec.decode(bytes.NewBuffer(buf.Bytes()))
+	verifAssert(err == nil, "decode-ok")
+	verifSameLeaf(dec, node, n)
+	verifReach("end")
+}
+
+// H12-internal: same for internal nodes with k separators.
+func verifH_C12_internal() {
+	k := verifParam("cells", 2)
+	dead := verifParam("dead", 0)
+	node := &btreeNode{}
+	node.fileOffset = verifU64("fileOffset")
+	node.lastLSN = verifU64("lsn")
+	node.rightOffset = verifU64("rightOffset")
+	for i := 0; i < k+dead; i++ {
+		node.appendInternalCell(verifU32("key"), verifU64("child"))
+	}
+	node.offsets = node.offsets[:k]
+	buf, err := node.encode()
+	verifAssert(err == nil, "encode-ok")
+	verifAssert(buf.Len() == pageSize, "page-size")
+	dec := &btreeNode{}
+	err = dec.decode(bytes.NewBuffer(buf.Bytes()))
+	verifAssert(err == nil, "decode-ok")
+	verifAssert(!dec.isLeaf, "isInternal")
+	verifAssert(dec.fileOffset == node.fileOffset, "fileOffset")
+	verifAssert(dec.lastLSN == node.lastLSN, "lastLSN")
+	verifAssert(dec.rightOffset == node.rightOffset, "rightOffset")
+	verifAssert(len(dec.offsets) == k, "cell-count")
+	keysOK, childOK, offOK := true, true, true
+	for i := 0; i < k && i < len(dec.offsets); i++ {
+		offOK = offOK && dec.offsets[i] == node.offsets[i]
+		a, b := dec.internalCells[dec.offsets[i]], node.internalCells[node.offsets[i]]
+		keysOK = keysOK && a.key == b.key
+		childOK = childOK && a.fileOffset == b.fileOffset
+	}
+	verifAssert(offOK, "offsets")
+	verifAssert(keysOK, "key")
+	verifAssert(childOK, "child")
+	verifReach("end")
+}
+
+// H12-disk: write through fileStore.update, read back through a fresh store
+// (cold cache) with fileStore.fetch, which also picks the node kind from byte 0.
+func verifH_C12_disk() {
+	n := verifParam("cells", 2)
+	base := verifValLens[verifChoice("baseLen", 3)]
+	verifFSReset()
+	if err := MakeDataDir(); err != nil {
+		verifAssume(false)
+	}
+	fs1, err := newFileStore("data/tbl", false)
+	verifAssert(err == nil, "open1")
+	leaf := verifChoice("kind", 2) == 0
+	var node *btreeNode
+	slot := uint64(pageSize) * uint64(1+verifChoice("slot", 3))
+	if leaf {
+		node = verifMakeLeaf(n, base, -1, 0, 0)
+	} else {
+		node = &btreeNode{}
+		node.lastLSN = verifU64("lsn")
+		node.rightOffset = verifU64("rightOffset")
+		for i := 0; i < n; i++ {
+			node.appendInternalCell(verifU32("key"), verifU64("child"))
+		}
+	}
+	node.fileOffset = slot
+	verifAssert(fs1.update(node) == nil, "update-ok")
+	fs1.file.Close()
+
+	fs2, err := newFileStore("data/tbl", false)
+	verifAssert(err == nil, "open2")
+	got, err := fs2.fetch(slot)
+	verifAssert(err == nil, "fetch-ok")
+	if err != nil || got == nil {
+		return
+	}
+	verifAssert(got.isLeaf == leaf, "kind")
+	if leaf {
+		verifSameLeaf(got, node, n)
+	} else {
+		verifAssert(got.rightOffset == node.rightOffset, "rightOffset")
+		verifAssert(got.lastLSN == node.lastLSN, "lastLSN")
+		verifAssert(len(got.offsets) == n, "cell-count")
+		ok := true
+		for i := 0; i < n && i < len(got.offsets); i++ {
+			a, b := got.internalCells[got.offsets[i]], node.internalCells[node.offsets[i]]
+			ok = ok && a.key == b.key && a.fileOffset == b.fileOffset
+		}
+		verifAssert(ok, "cells")
+	}
+	// a second fetch is served from the cache and is the same object
+	again, err := fs2.fetch(slot)
+	verifAssert(err == nil && again == got, "cache-hit")
 	verifReach("end")
 }
